@@ -1,6 +1,6 @@
 SPECIFICATION Spec
 CONSTANTS W = {1}
-          MaxIxC = 3
+          MaxIxC = 2
 INVARIANT Inv
 PROPERTIES ErrUnchanged FreshIndex
 VIEW MCView
